@@ -110,8 +110,11 @@ CHECKS["C12"] = ("Proof: C12.disk_list_report / disk_extract_report — for ever
                  "create/add/list/extract x quiet/verbose parsed into facts and compared with the independent decoding of the archive.", D, "7 C12")
 CHECKS["C13"] = ("Proof: tool's token table = pinned MO5 table, codes >= 0x80 / FFxx, injective, keywords distinct; every keyword typed alone "
                  "(upper or lower case) yields its token, ELSE with colon (finite, whole table, kernel evaluation of the model); file = FF, "
-                 "length, records, zero link; one record per line iff every line is numbered. The general delimited-line theorem is checked, not "
-                 "yet proved. Tie/oracle: vocabulary listings through real moto_lst2bas vs model, Lean structure decoder, Lean reference encoder.", D, "7 C13")
+                 "length, records, zero link; one record per line iff every line is numbered; C13.pieces_encode_independently — a line cut into pieces "
+                 "that each end, outside a string literal, with a special character (the statements of a line in particular) is encoded piece by "
+                 "piece, no token straddles a special character; keyword_then_separator (whole table x six characters); delimited_keywords — any "
+                 "sequence of keywords each followed by a special character is stored as the sequence of their tokens. Identifiers and numbers "
+                 "between keywords (encodeBody = encodeRef on every delimited line) are checked, not proved. Tie/oracle: vocabulary listings through real moto_lst2bas vs model, Lean structure decoder, Lean reference encoder.", D, "7 C13")
 CHECKS["C14"] = ("Proof: C14.lossless — for every ASCII line body, detokenizing (Spec.BasicRef.decode) the bytes the tokenizer model emits gives "
                  "the text upper-cased outside string literals (C17's automaton): invariant over the four branches of appendAsToken incl. the "
                  "repaired early-match branch, closure of decode over segments, whole-table shape lemma by kernel evaluation. Tie/oracle: "
